@@ -605,6 +605,56 @@ func c20Time(x *mc.X) *mc.Outcome {
 	return c20Check("Time."+name, []string{"Parse", "Validate"}[mode], fmt.Sprintf("delta#%d subject zone#%d (param zone#%d; zone 2 = time.Now() with monotonic reading)", d, sz, pz), false, want, code, issues, dest)
 }
 
+// Instants far from the present: every pair over the edges of the range int64 nanoseconds can count (1677 / 2262),
+// year 1, year 9999, the Unix epoch and the present. Zero-valued subjects are absent and are left out.
+func c20TimeFar(x *mc.X) *mc.Outcome {
+	zh.Reset()
+	zh.Install(x, zh.PoolLIFO, zh.OrderSorted)
+	edgeHi := time.Unix(0, math.MaxInt64).UTC() // 2262-04-11T23:47:16.854775807Z
+	edgeLo := time.Unix(0, math.MinInt64).UTC() // 1677-09-21T00:12:43.145224192Z
+	instants := []time.Time{
+		time.Date(1, 1, 1, 0, 0, 0, 1, time.UTC), time.Date(1000, 6, 1, 0, 0, 0, 0, time.UTC),
+		edgeLo.Add(-time.Nanosecond), edgeLo, edgeLo.Add(time.Nanosecond),
+		time.Unix(0, 0).UTC(), time.Date(2024, 2, 29, 12, 0, 0, 0, time.UTC),
+		edgeHi.Add(-time.Nanosecond), edgeHi, edgeHi.Add(time.Nanosecond),
+		time.Date(9999, 12, 31, 23, 59, 59, 999999999, time.UTC),
+	}
+	mode := x.Choose(2, "mode")
+	ti := x.Choose(3, "test")
+	pi := x.Choose(len(instants), "param")
+	si := x.Choose(len(instants), "subject")
+	param, subj := instants[pi], instants[si]
+	cmp := func(a, b time.Time) int {
+		if a.Unix() != b.Unix() {
+			if a.Unix() < b.Unix() {
+				return -1
+			}
+			return 1
+		}
+		return a.Nanosecond() - b.Nanosecond()
+	}
+	var s *z.TimeSchema
+	var want bool
+	var name, code string
+	switch ti {
+	case 0:
+		s, want, name, code = z.Time().After(param), cmp(subj, param) > 0, "After", "after"
+	case 1:
+		s, want, name, code = z.Time().Before(param), cmp(subj, param) < 0, "Before", "before"
+	case 2:
+		s, want, name, code = z.Time().EQ(param), cmp(subj, param) == 0, "EQ", "eq"
+	}
+	var issues z.ZogIssueList
+	var dest time.Time
+	if mode == 0 {
+		issues = s.Parse(subj, &dest)
+	} else {
+		dest = subj
+		issues = s.Validate(&dest)
+	}
+	return c20Check("Time."+name, []string{"Parse", "Validate"}[mode], fmt.Sprintf("far instants: subject %s, parameter %s", subj.Format(time.RFC3339Nano), param.Format(time.RFC3339Nano)), false, want, code, issues, dest)
+}
+
 func c20Slice(x *mc.X) *mc.Outcome {
 	zh.Reset()
 	zh.Install(x, zh.PoolLIFO, zh.OrderSorted)
@@ -938,9 +988,9 @@ func init() {
 		Floor: 100,
 		Bound: func(tier string) string {
 			if tier == "thorough" {
-				return "general strings ≤4 symbols over 27-symbol boundary alphabet (ASCII class edges, multi-byte letters/digits, non-ASCII punctuation and symbols, runes that fold to ASCII letters under Unicode case folding); email/url grammar strings ≤7 symbols; uuid: all single and double substitutions, insertions, deletions; numeric n×v over boundary sets of all 5 types; time ±1ns in 2 zones and against values carrying a monotonic clock reading; slices len 0..3"
+				return "general strings ≤4 symbols over 27-symbol boundary alphabet (ASCII class edges, multi-byte letters/digits, non-ASCII punctuation and symbols, runes that fold to ASCII letters under Unicode case folding); email/url grammar strings ≤7 symbols; uuid: all single and double substitutions, insertions, deletions; numeric n×v over boundary sets of all 5 types; time ±1ns in 2 zones and against values carrying a monotonic clock reading, and all pairs over 11 far instants (year 1, year 9999, both edges of the int64-nanosecond range ±1ns, the epoch, the present); slices len 0..3"
 			}
-			return "general strings ≤3 symbols over 27-symbol boundary alphabet (ASCII class edges, multi-byte letters/digits, non-ASCII punctuation and symbols, runes that fold to ASCII letters under Unicode case folding); email/url grammar strings ≤5 symbols; uuid: all single substitutions, insertions, deletions; numeric n×v over boundary sets of all 5 types; time ±1ns in 2 zones and against values carrying a monotonic clock reading; slices len 0..3"
+			return "general strings ≤3 symbols over 27-symbol boundary alphabet (ASCII class edges, multi-byte letters/digits, non-ASCII punctuation and symbols, runes that fold to ASCII letters under Unicode case folding); email/url grammar strings ≤5 symbols; uuid: all single substitutions, insertions, deletions; numeric n×v over boundary sets of all 5 types; time ±1ns in 2 zones and against values carrying a monotonic clock reading, and all pairs over 11 far instants (year 1, year 9999, both edges of the int64-nanosecond range ±1ns, the epoch, the present); slices len 0..3"
 		},
 		Assumptions: []string{
 			"reference predicates are the documented ones (len() in bytes, Go comparisons, strings.*, ASCII classes, stated grammars); URL reference uses net/url itself (scheme and host non-empty)",
@@ -972,6 +1022,22 @@ func init() {
 				}
 				return s.Email()
 			}, refEmail, func(x *mc.X) string { return chooseString(x, emailAlpha, gLen, "sym") })})
+			// long addresses: total lengths around every power of two and the mail-transport limits (64, 254, 255, 256, 320, 1024, 70000)
+			items = append(items, Item{Name: "grammar/EmailTotalLen", MaxDevs: -1, Run: c20Grammar("Email", "email", func(s *z.StringSchema[string], not bool) *z.StringSchema[string] {
+				if not {
+					return s.Not().Email()
+				}
+				return s.Email()
+			}, refEmail, func(x *mc.X) string {
+				total := []int{63, 64, 65, 127, 128, 129, 253, 254, 255, 256, 257, 319, 320, 321, 1023, 1024, 1025, 70000}[x.Choose(18, "totalLen")]
+				dom := "@" + strings.Repeat("d", 20) + "." + strings.Repeat("e", 20) + ".com"
+				if total <= len(dom)+1 {
+					dom = "@d.co"
+				}
+				bad := []string{"", " ", "@"}[x.Choose(3, "defect")] // well-formed, or one defect in the local part
+				local := strings.Repeat("a", total-len(dom)-len(bad)) + bad
+				return local + dom
+			})})
 			// long labels (63/64 boundary)
 			items = append(items, Item{Name: "grammar/EmailLabelLen", MaxDevs: -1, Run: c20Grammar("Email", "email", func(s *z.StringSchema[string], not bool) *z.StringSchema[string] {
 				if not {
@@ -1006,6 +1072,7 @@ func init() {
 			items = append(items, Item{Name: "num/float32", MaxDevs: -1, Run: c20NumItem(func() *z.NumberSchema[float32] { return z.Float32() }, []float32{float32(math.Inf(-1)), -math.MaxFloat32, -1.5, -1, float32(math.Copysign(0, -1)), 0, math.SmallestNonzeroFloat32, 1, math.Nextafter32(1, 2), 1.5, math.MaxFloat32, float32(math.Inf(1)), float32(math.NaN())}, "Float32")})
 			items = append(items, Item{Name: "bool", MaxDevs: -1, Run: c20Bool})
 			items = append(items, Item{Name: "time", MaxDevs: -1, Run: c20Time})
+			items = append(items, Item{Name: "time/far-instants", MaxDevs: -1, Run: c20TimeFar})
 			items = append(items, Item{Name: "slice/string", MaxDevs: -1, Run: c20Slice})
 			items = append(items, Item{Name: "slice/int", MaxDevs: -1, Run: c20SliceInt})
 			items = append(items, Item{Name: "slice/contains-deep-equality", MaxDevs: -1, Run: c20SliceDeep})
